@@ -31,6 +31,25 @@ ASSUMPTIONS = ["rows of the training array are pairwise distinct so a batch row 
 def generate(rng):
     cfg = sample_config(rng, n_range=(1, 17), max_iter_range=(1, 4), p_big=0.12)
     fam = FAMILIES[cfg["family"]]
+    if rng.random() < 0.07:
+        # swarm: much larger sample counts, with batch sizes near n, near divisors of n, and large ones (the arithmetic
+        # of "how many batches, how long is the last one" has its own corner cases there)
+        n = rng.randint(41, 170)
+        cfg["n"] = n
+        cfg["d"] = min(cfg["d"], 3)
+        cfg["params"]["max_iter"] = rng.randint(1, 2)
+        cfg["huge"] = True
+        if fam["batched"]:
+            b0 = rng.randint(20, n)
+            cfg["params"]["batch_size"] = weighted(rng, [(b0, 3), (n - rng.randint(1, 3), 2), (max(1, n // rng.randint(2, 5)), 2),
+                                                      (max(1, n // rng.randint(2, 4)) + 1, 1), (max(2, (n - rng.randint(1, 2)) // rng.randint(1, 3)), 2),
+                                                      (rng.randint(1, 12), 1)])
+        if cfg["params"].get("groups"):
+            cfg["params"]["groups"] = [g for g in ([v for v in grp if v < cfg["d"]] for grp in cfg["params"]["groups"]) if g] or None
+        if cfg["params"].get("feature_mask"):
+            cfg["params"]["feature_mask"] = cfg["params"]["feature_mask"][:cfg["d"]]
+            if not any(cfg["params"]["feature_mask"]):
+                cfg["params"]["feature_mask"][0] = True
     kmin = max(1, cfg["params"]["n_clusters"])
     cfg["n2"] = cfg["n"] if rng.random() < 0.5 else rng.randint(kmin, max(kmin, 17))
     deco = None
